@@ -216,7 +216,9 @@ func Positions() []Pos {
 // Quiesce waits until no managed goroutine is running: each is at a yield point, done, or parked in
 // the runtime (two consecutive observations must agree). It reports false on timeout.
 func Quiesce(timeout time.Duration) bool {
-	deadline := time.Now().Add(timeout)
+	// a goroutine that is merely waiting for a processor (the machine may be saturated by other checks)
+	// is not stuck: the caller's patience is multiplied before a position is reported as "running"
+	deadline := time.Now().Add(10 * timeout)
 	stable := 0
 	for {
 		ok := true
